@@ -601,7 +601,7 @@ class RingStream(Stream):
     name = "history"
     coq_header = HEADER
     n_quick = 2400
-    n_thorough = 60000
+    n_thorough = 24000
 
     def gen(self, rng, tier):
         cases = boundary_cases()
